@@ -5,6 +5,7 @@ package kvstore
 import (
 	"errors"
 	"io"
+	"strconv"
 	"time"
 
 	"github.com/olric-data/olric/internal/kvstore/entry"
@@ -298,6 +299,40 @@ func VerifC11_Layouts() {
 	for i := 0; i < steps; i++ {
 		s = vpStep(s, ref, nkeys, big, size, 2*steps+8, 6)
 		vpCheckStore(s, ref)
+	}
+	vpReach("end")
+}
+
+// VerifC11_LargeTable: compaction of a table that holds more live entries than one compaction call moves (the
+// per-call limit of 1000): L live and L dead entries in one table, L around that limit; compaction runs to
+// completion. Every live key is still there with its value, every deleted key is absent, the count is L.
+func VerifC11_LargeTable() {
+	live := [4]int{999, 1000, 1001, 1300}[vpChoose("live", 4)]
+	total := 2 * live
+	s := vpMkStore(uint64((total + 2) * 32))
+	val := vpBytes("val", 1)
+	for i := 0; i < total; i++ {
+		e := entry.New()
+		e.SetKey("k" + strconv.Itoa(i))
+		e.SetValue(val)
+		e.SetTimestamp(int64(i))
+		vpAssume(s.Put(uint64(i+1), e) == nil)
+	}
+	for i := 0; i < live; i++ {
+		vpAssume(s.Delete(uint64(2*i+1)) == nil) // every other key
+	}
+	vpCompact(s, 8)
+	vpAssert(s.Stats().Length == live, "stats-length")
+	for i := 0; i < total; i++ {
+		e, err := s.Get(uint64(i + 1))
+		if i%2 == 0 {
+			vpAssert(errors.Is(err, storage.ErrKeyNotFound), "get-absent")
+		} else {
+			vpAssert(err == nil, "get-present")
+			if err == nil {
+				vpAssert(vpAnd(e.Key() == "k"+strconv.Itoa(i), vpBytesEq(e.Value(), val)), "get-value")
+			}
+		}
 	}
 	vpReach("end")
 }
